@@ -651,6 +651,10 @@ class Exec:
         """equality of pointers / interfaces / nil"""
         def isnil(v):
             return v is NIL or v is None
+        if isinstance(x, Iface) and x.t == -1:
+            x = x.v
+        if isinstance(y, Iface) and y.t == -1:
+            y = y.v
         if isnil(x) or isnil(y):
             a = y if isnil(x) else x
             if isnil(a):
